@@ -11,7 +11,7 @@
 From WM Require Import Base.Prelude Router.Close.
 
 Inductive aev :=
-| ATaken (m : mid)                 (* the pump took m from the subscriber *)
+| ATaken (m : mid)                 (* the handler loop received m (a message the decorator gives up before is never seen) *)
 | AStart (m : mid)                 (* handler function entered *)
 | AEnd (m : mid)                   (* handler function returned *)
 | ASettle (m : mid)                (* Ack or Nack *)
@@ -128,7 +128,7 @@ Definition emit (s : state) (l : label) : list aev :=
   | None => []
   | Some _ =>
       match l with
-      | LEmit h => [ATaken (nextm s)]
+      | LDeliver h => match pp s h with PSend m => [ATaken m] | _ => [] end
       | LMsg m =>
           match mp s m with
           | MSpawned => [AStart m]
